@@ -11,7 +11,7 @@ from vlib.core import Collector, Failure, exc_sig, hyp_campaign
 ID = "C17"
 LEVEL = "exploration"
 RULE = ("Hypothesis draws a WsdlSpec (1-4 operations, document or rpc style, parts by element or by builtin / complex type, optional "
-        "soap:header and fault, schema inline or imported, varied target / schema namespaces, endpoint and SOAPAction strings) and, per "
+        "soap:header (in a message of its own or next to the body parts, selected with parts=) and fault, per-operation style overrides and omitted soapAction, schema inline or imported, varied target / schema namespaces, endpoint and SOAPAction strings) and, per "
         "operation, the request, response and fault envelopes the WSDL prescribes (written by the harness from the spec alone). Oracles: "
         "generation succeeds and imports; per operation there is a service class carrying the binding's style, location, transport and "
         "SOAPAction plus input and output envelope classes; the prescribed request parses strictly into the input class and "
@@ -86,14 +86,14 @@ def execute(case, col):
             for obj in vars(m).values():
                 if isinstance(obj, type) and all(hasattr(obj, a) for a in ("style", "location", "transport", "input")):
                     services[obj.__name__] = obj
+        caller_headers = {"X-Trace": "1"}
         for op, msg in zip(spec["ops"], case["messages"]):
-            svc = [s for s in services.values() if getattr(s, "soap_action", None) == op["action"] and s.__name__.lower().endswith(op["name"].lower().replace("_", ""))]
+            svc = [s for s in services.values() if s.__name__.lower().endswith(op["name"].lower().replace("_", ""))]
             if len(svc) != 1:
-                return [Failure("service-description-missing", f"operation {op['name']}: {len(svc)} service classes with SOAPAction {op['action']!r} "
-                                f"among {sorted(services)}{tail}", case)]
+                return [Failure("service-description-missing", f"operation {op['name']}: {len(svc)} service classes among {sorted(services)}{tail}", case)]
             svc = svc[0]
-            got = {"style": svc.style, "location": svc.location, "transport": svc.transport, "soap_action": svc.soap_action}
-            want = {"style": spec["style"], "location": spec["location"], "transport": HTTP, "soap_action": op["action"]}
+            got = {"style": svc.style, "location": svc.location, "transport": svc.transport, "soap_action": getattr(svc, "soap_action", None) or None}
+            want = {"style": op.get("style") or spec["style"], "location": spec["location"], "transport": HTTP, "soap_action": op["action"]}
             if got != want or not hasattr(svc, "output"):
                 return [Failure("service-description-wrong", f"operation {op['name']}: {got} != {want}{tail}", case)]
             ctx = XmlContext()
@@ -107,13 +107,16 @@ def execute(case, col):
             for kind in ("response", "fault"):
                 rec = Recorder(msg[kind].encode())
                 try:
-                    res = Client.from_service(svc, transport=None).__class__(config=Client.from_service(svc).config, transport=rec).send(req, headers={"X-Trace": "1"})
+                    # one caller-owned headers dict serves every call of the case
+                    res = Client(config=Client.from_service(svc).config, transport=rec).send(req, headers=caller_headers)
                 except Exception as e:
                     return [Failure(exc_sig(f"client-send-raise/{kind}", e), f"{type(e).__name__}: {e}\noperation {op['name']}\nresponse: {msg[kind]}{tail}", case)]
                 if len(rec.calls) != 1:
                     return [Failure("client-posted-not-once", f"{len(rec.calls)} posts{tail}", case)]
                 url, data, headers = rec.calls[0]
                 low = {k.lower(): v for k, v in headers.items()}
+                if caller_headers != {"X-Trace": "1"}:
+                    return [Failure("client-mutated-caller-headers", f"the caller's headers dict became {caller_headers}{tail}", case)]
                 if url != spec["location"] or low.get("content-type") != "text/xml" or low.get("soapaction") != op["action"] or low.get("x-trace") != "1":
                     return [Failure("client-post-wrong-target-or-headers", f"url={url!r} headers={headers}\nwanted {spec['location']!r}, text/xml, {op['action']!r}{tail}", case)]
                 try:
